@@ -476,6 +476,17 @@ func cmdForms(args []string) {
 				return jen.Id("v" + strings.ReplaceAll(t.ID, ".", "_"))
 			}
 			name := strings.ToUpper(t.Name[:1]) + t.Name[1:]
+			if t.Name == "do" {
+				log.add("begin", t.ID)
+				s := jen.Do(func(s *jen.Statement) {
+					log.add("cb", t.ID)
+					for i := range t.Kids {
+						s.Add(build(&t.Kids[i]))
+					}
+				})
+				log.add("end", t.ID)
+				return s
+			}
 			if t.Fv {
 				log.add("begin", t.ID)
 				s := reflect.ValueOf(pkgFuncs[name+"Func"]).Call([]reflect.Value{reflect.ValueOf(func(g *jen.Group) {
@@ -502,6 +513,9 @@ func cmdForms(args []string) {
 				return jen.Id("v" + strings.ReplaceAll(t.ID, ".", "_"))
 			}
 			name := strings.ToUpper(t.Name[:1]) + t.Name[1:]
+			if t.Name == "do" {
+				name = "Add" // what Do(f) builds when f adds the children: a statement of them
+			}
 			kids := []reflect.Value{}
 			for i := range t.Kids {
 				kids = append(kids, reflect.ValueOf(plain(&t.Kids[i])))
